@@ -269,9 +269,14 @@ type Interp struct {
 	callNames  []string
 	intEq      map[string]int          // facts about symbolic integers (e.g. a type's Kind()) learnt from decisions on this path
 	intNe      map[string]map[int]bool //
+	leafPred   map[*ast.FuncDecl]bool
 	active     map[*ast.FuncDecl][]string // type-argument identity of the active calls, per function (progress check)
 	g9mode     bool // tabulating a predicate: helper predicates are interpreted, only recursive calls are answered by the oracle
 }
+
+// leafPredNames: call-free predicates that are interpreted rather than answered by the oracle (confirmed by reading: each is
+// one type switch / kind switch).
+var leafPredNames = map[string]bool{"nullable": true, "nillable": true, "isOrdered": true}
 
 type predCall struct {
 	name string
@@ -1800,8 +1805,17 @@ func (in *Interp) call(fr *Frame, c *ast.CallExpr) Value {
 			return VBool{Sym: org}
 		case "typesmap.FieldStrings":
 			l := &VList{}
-			for i := 0; i < in.shape; i++ {
-				l.Elems = append(l.Elems, hole("NAME", fmt.Sprintf("fielddecl%d", i)).concat(lit(" ")).concat(hole("TYPE", fmt.Sprintf("fieldtype%d", i))))
+			if fl, ok := args[0].(*VList); ok {
+				// one line per field: its name and its type, as the struct would be printed
+				for _, f := range fl.Elems {
+					if fo, ok := f.(*VOpaque); ok {
+						l.Elems = append(l.Elems, in.varName(fo).concat(lit(" ")).concat(in.typeString(in.varType(fo), false)))
+					}
+				}
+			} else {
+				for i := 0; i < in.shape; i++ {
+					l.Elems = append(l.Elems, hole("NAME", fmt.Sprintf("fielddecl%d", i)).concat(lit(" ")).concat(hole("TYPE", fmt.Sprintf("fieldtype%d", i))))
+				}
 			}
 			var err Value = VNil{}
 			if in.decide("E:"+org, 2) == 1 {
@@ -2210,6 +2224,27 @@ func (in *Interp) isPurePredicate(f *VFunc) bool {
 		if strings.HasSuffix(ts, "go/types.Tuple") || strings.HasSuffix(ts, "go/types.Var") {
 			return false
 		}
+	}
+	// a predicate that calls no function of the repository (itself included) is a plain case analysis: interpreting it keeps
+	// its answer consistent with the kinds the path establishes (e.g. deepcopy's nullable, min's isOrdered)
+	if in.leafPred == nil {
+		in.leafPred = map[*ast.FuncDecl]bool{}
+	}
+	leaf, seen := in.leafPred[f.Decl]
+	if !seen {
+		leaf = true
+		ast.Inspect(f.Decl.Body, func(n ast.Node) bool {
+			if c, ok := n.(*ast.CallExpr); ok {
+				if fn, ok := callee(f.Pkg.TypesInfo, c).(*types.Func); ok && fn.Pkg() != nil && strings.HasPrefix(fn.Pkg().Path(), modPath) {
+					leaf = false
+				}
+			}
+			return true
+		})
+		in.leafPred[f.Decl] = leaf
+	}
+	if leaf && leafPredNames[f.Decl.Name.Name] {
+		return false
 	}
 	rt := sig.Results().At(0).Type()
 	if b, ok := rt.Underlying().(*types.Basic); ok && b.Kind() == types.Bool {
